@@ -114,6 +114,18 @@ CHECKS['C18'] = dict(
     design_ref='DESIGN.md section 6, C18',
     technique='Coq proof (round-trip by induction over entry lists, finite table checks by vm_compute) + regenerated tables + in-Coq correspondence')
 
+CHECKS['C05'] = dict(
+    text='Theorems for EVERY history of send_frame calls and sender steps, every fragment size >= 64 or none, both framings '
+         '(props/C05.v): for each stream, written ++ still-queued = the concatenation of the fragment lists of the frames queued '
+         'for it in queue order (so queue order = wire order per stream, fragments contiguous within their stream, nothing lost '
+         'or duplicated, other streams may interleave); the priority frame goes first; at the receiver appending a frame touches '
+         'only its own stream\'s reassembly entry, so for ANY interleaving the answers for a stream equal feeding that stream '
+         'alone. The pre-fix rotate-to-back behaviour is proved to break the order (defect repaired by a fix: commit). Tied to '
+         'rsocket_base.py by an in-Coq correspondence on a real server with a gated transport (history of queue/sender events '
+         'recorded from outside) and a real FrameFragmentCache.',
+    design_ref='DESIGN.md section 6, C05',
+    technique='Coq proof (per-stream projection invariant; cache locality) + in-Coq correspondence with a real endpoint on a gated transport')
+
 NOT_YET = {}
 
 def main():
